@@ -64,8 +64,14 @@ def history(case, rng, base):
     specs = evgen.argspecs(case)
     n = int(rng.integers(3, 9))
     cur = {k: v.copy() for k, v in base.items()}
-    hist = [('first', cur)]
+    hist = []
+    if specs and rng.random() < .25:      # the very first call fails (missing / mis-shaped argument): later calls must be unaffected
+        hist.append(_bad_call(rng, specs, cur))
+    hist.append(('first', cur))
     for _ in range(n - 1):
+        if specs and rng.random() < .12:
+            hist.append(_bad_call(rng, specs, cur))
+            continue
         kind = str(rng.choice(['same-dict', 'equal-copy', 'one-changed', 'mutated-in-place', 'all-changed', 'extra-args', 'as-list', 'revisit-first']))
         if not specs and kind in ('one-changed', 'mutated-in-place', 'all-changed'):
             kind = 'same-dict'
@@ -91,11 +97,21 @@ def history(case, rng, base):
         elif kind == 'as-list':
             nxt = {k: (v.tolist() if v.ndim and v.size else v[()] if not v.ndim else v) for k, v in cur.items()}
         else:
-            nxt = hist[0][1]
+            nxt = next(a for k, a in hist if not k.startswith('bad-'))
         hist.append((kind, nxt))
         if kind != 'as-list':
             cur = nxt
     return hist
+
+
+def _bad_call(rng, specs, cur):
+    name, shape, kind, rg = specs[int(rng.integers(len(specs)))]
+    bad = dict(cur)
+    if rng.random() < .5 or not shape:
+        del bad[name]
+        return ('bad-missing', bad)
+    bad[name] = numpy.zeros(tuple(n + 1 for n in shape), dtype=cur[name].dtype)
+    return ('bad-shape', bad)
 
 
 def asarrays(case, d):
@@ -143,6 +159,18 @@ def check_case(case, seed_key, res, tier):
     for icall, (kind, args) in enumerate(hist):
         res.count('calls')
         res.count('hist/' + kind)
+        if kind.startswith('bad-'):
+            try:
+                with evmon.wall(60), warnings.catch_warnings(), numpy.errstate(all='ignore'):
+                    warnings.simplefilter('ignore')
+                    f(args)
+                res.count('bad_call_returned')
+            except evmon.WallNominate:
+                res.count('inconclusive_wall')
+                break
+            except Exception:
+                res.count('bad_call_raised')
+            continue
         cur = asarrays(case, args)
         try:
             ref, scale = evgen.shadow(case, cur)
@@ -383,6 +411,7 @@ def finalize(m, tier, seed):
                comparisons={k[8:]: v for k, v in c.items() if k.startswith('compare/')},
                argument_snapshots=c.get('argument_snapshots', 0), poisoned_arrays=c.get('poisoned', 0), returned_writable=c.get('returned_writable', 0),
                returned_readonly=c.get('returned_readonly', 0), scripts_with_first_run=c.get('feature/first_run', 0),
+               failing_calls=dict(raised=c.get('bad_call_raised', 0), returned=c.get('bad_call_returned', 0)),
                library=dict(calls=c.get('lib_calls', 0), scenarios={k[4:]: v for k, v in c.items() if k.startswith('lib/')}, failed=c.get('lib_scenario_failed', 0)),
                skipped_c01_event=c.get('skipped_c01_event', 0), compile_failed=c.get('compile_failed', 0), fresh_compile_also_wrong=c.get('fresh_compile_also_wrong', 0),
                history_left_domain=c.get('history_left_domain', 0), skipped_deadline=c.get('skipped_deadline', 0))
